@@ -429,6 +429,7 @@ fn draw_req(r: &mut Rng, id: u32, first: bool) -> ReqSpec {
             fail: false,
             upgrade: false,
             redirect: None,
+            resp_trailers: false,
         },
     }
 }
